@@ -521,6 +521,11 @@ def nested_stream(D, m, only=None):
     return tot
 
 
+def _short(c):
+    """`cola.ops.operators.Product[cola.ops.operators.Dense, ...]` -> `Product[…]`"""
+    return c.split("[")[0].split(".")[-1] + ("[…]" if "[" in c else "")
+
+
 def judge_nested(m, lean, tot):
     """-> (list of findings, summary for the evidence).  A finding is a (function, argument tuple) that reached
     plum's resolver during a public call of the lattice and
@@ -538,7 +543,7 @@ def judge_nested(m, lean, tot):
         if lo is None:
             findings.append(dict(base, kind="not-in-lattice", lookup_error=e.get("msg"),
                                  what=(f"during `{e['outer'][1]}` on {e['outer'][2]} {e['outer'][3]} the dispatched function `{fname}` is resolved on "
-                                       f"({', '.join(c.split('.')[-1] for c in e['classes'])}; condition bits {key[1]}), which is not a tuple of the "
+                                       f"({', '.join(_short(c) for c in e['classes'])}; condition bits {key[1]}), which is not a tuple of the "
                                        f"lattice of `{fname}`: the C04 theorems say nothing about it")))
             continue
         in_lat += 1
@@ -550,7 +555,7 @@ def judge_nested(m, lean, tot):
                          "nested": {"fn": fname, "tuple": None, "classes": list(classes), "position_in_call": e["pos"],
                                     "real_outcomes": sorted(f"{o[0]} {o[1]}" if o[0] == "U" else o[0] for o in e["outs"]),
                                     "times_observed": e["n"]},
-                         "what": f"during `{e['outer'][1]}` on {e['outer'][2]} {e['outer'][3]} `{fname}` is resolved on ({', '.join(c.split('.')[-1] for c in classes)}): {err}"})
+                         "what": f"during `{e['outer'][1]}` on {e['outer'][2]} {e['outer'][3]} `{fname}` is resolved on ({', '.join(_short(c) for c in classes)}): {err}"})
     nested_keys = {k for k, e in tot["obs"].items() if e["nested"]}
     summary = {
         "calls_run_to_completion": tot["calls"],
